@@ -65,6 +65,10 @@ class C18:
             {"os": "darwin", "arch": "amd64", "allowed": allv, "meta_min": 1},
             {"os": "linux", "arch": "amd64", "allowed": allv, "meta_min": 1},
             {"os": "linux", "arch": "amd64", "allowed": [], "meta_min": 0},
+            # every OS / architecture pair is its own platform: no artifact of another pair is an answer
+            {"os": "darwin", "arch": "arm64", "allowed": allv, "meta_min": 0},
+            {"os": "darwin", "arch": "arm64", "allowed": sub, "meta_min": rng.choice([0, 1])},
+            {"os": rng.choice(["linux", "darwin"]), "arch": rng.choice(["amd64", "arm64"]), "allowed": allv, "meta_min": 0},
         ]
 
     def gen(self, rng, tier):
